@@ -24,7 +24,7 @@ import parsergen
 
 THEOREMS = ["C01_prims_are_source", "C01_lossless_source", "C01_parse_is_source", "C01_lossless_lib_parse", "C01_lossless", "C01_lossless_checked", "C01_lossless_any_program", "C01_prefix_any_program", "C01_lexer_lossless"]
 TRUSTED = [
-    "tie of lexer.rs / preprocessor.rs / parser.rs: TRANSLATION + PROOF -- tools/translate/{t_lexer,t_prep,t_parser}.py render every function of the three files (shallow state-monad embedding, coq/model/{ScanMonad,PrepMonad,ParserMonad}.v = contracts of unscanny, Rust std, rowan GreenNodeBuilder) into gen/Gen{Lexer,Prep,Parser}.v on every run; proofs/Gen{Lexer,Prep,Parser}Eq.v prove the rendering equal to the hand models for all states/texts (C0x_prims_are_source); trusted for these files are therefore the translators and the three monad files, no longer the hand models Lexer.v / Prep.v / ParserPrims.v (still cross-checked by the differential run)",
+    "tie of lexer.rs / preprocessor.rs / parser.rs: TRANSLATION + PROOF -- tools/translate/{t_lexer,t_prep,t_parser}.py render every function of the three files (shallow state-monad embedding, coq/model/{ScanMonad,PrepMonad,ParserMonad}.v = contracts of unscanny, Rust std, rowan GreenNodeBuilder) into gen/Gen{Lexer,Prep,Parser}.v on every run; proofs/Gen{Lexer,Prep,Parser}Eq.v prove the rendering equal to the hand models for all states/texts (C0x_prims_are_source); trusted for these files are therefore the translators and the three monad files, no longer the hand models Lexer.v / Prep.v / ParserPrims.v (still cross-checked by the differential run); crates/syntax/src/lib.rs (`parse`, struct Parse and its accessors, Language::kind_from_raw/kind_to_raw) is rendered by t_libglue.py into gen/GenLibGlue.v over model/LibGlueApi.v and proved to be gparse_with (GenLibGlueEq.v, *_parse_is_source / *_lib_parse*)",
     "Coq 8.16.1 kernel; vm_compute for the reflective obligation on the regenerated grammar (certificate check); no axioms (Print Assumptions: closed under the global context)",
     "hand-written models coq/model/{Chars,Lexer,Prep,ParserPrims,Tree}.v of lexer.rs / preprocessor.rs / parser.rs and of rowan's GreenNodeBuilder (token, start_node, start_node_at, finish_node, finish; SyntaxNode::text and text_range derived from token texts), tied to the code by the correspondence run of this check",
     "translator tools/translate/t_grammar.py (+ t_tokens, t_lextables, t_unicode): the grammar functions as a program of the DSL of coq/model/GInterp.v, regenerated from the current sources on every run; the theorems quantify over every program, so a mistranslation cannot make C01 false for the model, only break the correspondence",
